@@ -15,10 +15,13 @@ import (
 	"io"
 	"os"
 	"regexp"
+	"runtime/debug"
 	"sort"
 	"strconv"
 	"strings"
+	"sync"
 	"testing"
+	"time"
 
 	remoteexecution "github.com/bazelbuild/remote-apis/build/bazel/remote/execution/v2"
 	"github.com/buildbarn/bb-storage/pkg/blobstore/buffer"
@@ -39,7 +42,8 @@ type item struct {
 
 // bufSpec is one buffer: kind B (validated byte slice), E (error buffer),
 // S (NewCASBufferFromByteSlice), C (CAS over scripted ChunkReader), R (CAS
-// over scripted io.ReadCloser); F is only valid as a handler response
+// over scripted io.ReadCloser), K / V (one half of CloneStream() of a C buffer; the other half is
+// discarded / read to the end by a second goroutine); F is only valid as a handler response
 // (the handler returns error k).
 type bufSpec struct {
 	kind  byte
@@ -177,7 +181,7 @@ func parseBuf(w string) (bufSpec, bool) {
 		k, err := strconv.Atoi(p[1])
 		b.k = k
 		return b, err == nil
-	case 'C', 'R':
+	case 'C', 'R', 'K', 'V':
 		if p[1] == "_" {
 			return b, true
 		}
@@ -246,6 +250,10 @@ type env struct {
 	opens   int
 	closes  int
 	inner   []*handler // handlers of stacked buffers (kind W), in order of construction
+	mu      sync.Mutex // clone halves are consumed by a second goroutine
+	wg      sync.WaitGroup
+	partner string // panic of a second goroutine, if any
+	clones  int
 }
 
 func newEnv(c caseSpec) *env {
@@ -255,6 +263,8 @@ func newEnv(c caseSpec) *env {
 }
 
 func (e *env) errOf(k int) error {
+	e.mu.Lock()
+	defer e.mu.Unlock()
 	if err, ok := e.errs[k]; ok {
 		return err
 	}
@@ -276,13 +286,15 @@ func (s *chunkSrc) Read() ([]byte, error) {
 	it := s.items[0]
 	s.items = s.items[1:]
 	if it.fail {
+		s.e.mu.Lock()
 		s.e.emitted = append(s.e.emitted, it.k)
+		s.e.mu.Unlock()
 		return nil, s.e.errOf(it.k)
 	}
 	return append([]byte{}, it.data...), nil
 }
 
-func (s *chunkSrc) Close() { s.e.closes++ }
+func (s *chunkSrc) Close() { s.e.mu.Lock(); s.e.closes++; s.e.mu.Unlock() }
 
 type readSrc struct {
 	e     *env
@@ -335,6 +347,33 @@ func (e *env) build(b bufSpec) buffer.Buffer {
 	case 'R':
 		e.opens++
 		return buffer.NewCASBufferFromReader(e.dig, &readSrc{e: e, items: cloneItems(b.items)}, src)
+	case 'K', 'V':
+		e.opens++
+		b1, b2 := buffer.NewCASBufferFromChunkReader(e.dig, &chunkSrc{e: e, items: cloneItems(b.items)}, src).CloneStream()
+		e.wg.Add(1)
+		e.clones++
+		go func(kind byte) {
+			defer e.wg.Done()
+			defer func() {
+				if r := recover(); r != nil {
+					e.mu.Lock()
+					e.partner = fmt.Sprint(r)
+					e.mu.Unlock()
+				}
+			}()
+			if kind == 'K' {
+				b2.Discard()
+				return
+			}
+			r := b2.ToChunkReader(0, 64*1024)
+			for {
+				if _, err := r.Read(); err != nil {
+					break
+				}
+			}
+			r.Close()
+		}(b.kind)
+		return b1
 	case 'W':
 		h := &handler{e: e, base: *b.inner, resps: b.hin}
 		e.inner = append(e.inner, h)
@@ -600,6 +639,22 @@ func runReal(c caseSpec) (o obs) {
 			result = "bad-op"
 		}
 	}()
+	if e.clones > 0 {
+		waited := make(chan struct{})
+		go func() { e.wg.Wait(); close(waited) }()
+		timer := time.NewTimer(5 * time.Second)
+		select {
+		case <-waited:
+			timer.Stop()
+		case <-timer.C:
+			o.panicked = "the other half of a cloned buffer never finished (deadlock)"
+		}
+		e.mu.Lock()
+		if e.partner != "" && o.panicked == "" {
+			o.panicked = "other clone half: " + e.partner
+		}
+		e.mu.Unlock()
+	}
 	if o.panicked != "" {
 		result = "panic"
 	}
@@ -637,7 +692,7 @@ func (c caseSpec) consistent() bool {
 		switch b.kind {
 		case 'S':
 			all = b.data
-		case 'C', 'R':
+		case 'C', 'R', 'K', 'V':
 			for _, it := range b.items {
 				if it.fail {
 					break
@@ -663,7 +718,7 @@ func (c caseSpec) sound() bool {
 		switch b.kind {
 		case 'S':
 			n = len(b.data)
-		case 'C', 'R':
+		case 'C', 'R', 'K', 'V':
 			if _, fails := firstFail(b); fails {
 				continue
 			}
@@ -713,7 +768,7 @@ func checkHandler(e *env, h *handler, who string) (string, string) {
 		switch cur.kind {
 		case 'E':
 			bad = !isTag || k != cur.k
-		case 'C', 'R':
+		case 'C', 'R', 'K', 'V':
 			fk, has := firstFail(cur)
 			bad = isTag && (!has || fk != k)
 		case 'W':
@@ -779,7 +834,7 @@ func oracle(c caseSpec, o obs) (string, string) {
 		}
 	}
 	integrity := o.finalErr != nil && !handlerDecided
-	if !o.stopped && !integrity {
+	if !o.stopped && !integrity && !c.hasKind('V') {
 		var srcTags []int
 		for _, k := range logTags {
 			for _, m := range e.emitted {
@@ -1002,6 +1057,21 @@ func exhaustive(L int, full bool, emit func(c caseSpec)) {
 			}
 		}
 	}
+	// cloned buffers as replacements: resumed at the offset where the base failed
+	for _, kind := range []byte{'K', 'V'} {
+		for _, m := range []int{2, L + 1} {
+			if !full && ((kind == 'V' && m == 2) || (kind == 'K' && m != 2)) {
+				continue
+			}
+			firsts = append(firsts, []bufSpec{{kind: kind, items: scriptOf(uniform(d, m), -1, 0)}})
+			for fp := 0; fp <= L; fp++ {
+				firsts = append(firsts, []bufSpec{{kind: kind, items: scriptOf(uniform(d, m), fp, 2)}, {kind: 'K', items: scriptOf(uniform(d, 1), -1, 0)}})
+				if full || kind == 'K' {
+					firsts = append(firsts, []bufSpec{{kind: kind, items: scriptOf(uniform(d, m), fp, 2)}, {kind: 'F', k: 21}})
+				}
+			}
+		}
+	}
 	firsts = append(firsts, []bufSpec{{kind: 'B', data: d}}, []bufSpec{{kind: 'S', data: d}}, []bufSpec{{kind: 'F', k: 11}}, []bufSpec{})
 	for _, s := range seconds {
 		firsts = append(firsts, append([]bufSpec{{kind: 'E', k: 12}}, s...))
@@ -1060,7 +1130,20 @@ func exhaustive(L int, full bool, emit func(c caseSpec)) {
 			}
 		}
 	}
-	for _, base := range bases {
+	// cloned base buffers with a few outer answers
+	for fp := -1; fp <= L; fp++ {
+		for _, kind := range []byte{'K', 'V'} {
+			if kind == 'V' && !full && fp%2 == 0 {
+				continue
+			}
+			for _, op := range ops {
+				for _, os := range outerFew {
+					emit(caseSpec{d: d, size: L, op: op, base: bufSpec{kind: kind, items: scriptOf(uniform(d, 2), fp, 1)}, resps: os})
+				}
+			}
+		}
+	}
+	for bi, base := range bases {
 		_, baseFails := firstFail(base)
 		baseFails = baseFails || base.kind == 'E' || (base.kind == 'S' && len(base.data) != L)
 		for _, op := range ops {
@@ -1069,6 +1152,9 @@ func exhaustive(L int, full bool, emit func(c caseSpec)) {
 				continue
 			}
 			for _, f := range firsts {
+				if !full && bi%3 != 0 && len(f) > 0 && (f[0].kind == 'K' || f[0].kind == 'V') {
+					continue // cloned replacements (a goroutine each) on every third base at the two largest scopes
+				}
 				emit(caseSpec{d: d, size: L, op: op, base: base, resps: f})
 			}
 		}
@@ -1146,8 +1232,13 @@ func randomCase(r *hx.Rand) caseSpec {
 			return bufSpec{kind: 'S', data: data}
 		}
 		kind := byte('C')
-		if r.Chance(1, 2) {
+		switch y := r.Intn(16); {
+		case y < 7:
 			kind = 'R'
+		case y < 10:
+			kind = 'K'
+		case y < 11:
+			kind = 'V'
 		}
 		fp := -1
 		if mayFail && r.Chance(4, 5) {
@@ -1226,7 +1317,12 @@ func variants(b bufSpec) []bufSpec {
 				res = append(res, nb)
 			}
 		}
-	case 'C', 'R':
+	case 'C', 'R', 'K', 'V':
+		if b.kind == 'K' || b.kind == 'V' {
+			nb := b
+			nb.kind = 'C' // not cloned
+			res = append(res, nb)
+		}
 		for ii := range b.items {
 			nb := b
 			if ii+1 < len(b.items) && !b.items[ii].fail && !b.items[ii+1].fail {
@@ -1286,7 +1382,16 @@ func shrinkCase(c caseSpec, fails func(caseSpec) bool) caseSpec {
 
 // oracleOnly: cases the model does not cover (negative offsets, stacked error handlers); they are
 // run on the real code and held against the oracle only.
-func oracleOnly(c caseSpec) bool { return strings.HasPrefix(c.op, "x") || c.nested() }
+func oracleOnly(c caseSpec) bool { return strings.HasPrefix(c.op, "x") || c.nested() || c.hasKind('V') }
+
+func (c caseSpec) hasKind(k byte) bool {
+	for _, b := range c.allBufs() {
+		if b.kind == k {
+			return true
+		}
+	}
+	return false
+}
 
 type pending struct {
 	name string
@@ -1297,6 +1402,9 @@ type pending struct {
 func TestC16(t *testing.T) {
 	run := hx.NewRun("C16")
 	defer run.Finish(t)
+	// most of the run time would otherwise go into collecting the 64 KiB chunk buffers the real
+	// code allocates per Read
+	defer debug.SetGCPercent(debug.SetGCPercent(800))
 	model, err := hx.StartModel()
 	if err != nil {
 		t.Fatalf("start model: %v", err)
